@@ -477,6 +477,17 @@ func main() {
 
 	cases := enumerate(r)
 	var capped atomic.Bool
+	if v := os.Getenv("C30_MAXN"); v != "" { // development aid: only packages of <= v functions
+		var keep []caseSpec
+		for _, c := range cases {
+			if fmt.Sprint(len(c.Fns)) <= v {
+				keep = append(keep, c)
+			}
+		}
+		cases = keep
+		r.Cap("C30_MAXN filter")
+		capped.Store(true)
+	}
 	if f := os.Getenv("C30_ONLY"); f != "" { // development aid: substring filter
 		var keep []caseSpec
 		for _, c := range cases {
